@@ -1,5 +1,6 @@
 import DriverLib.Json
 import Gonnx.Kernel
+import Gonnx.Ops.IntWrap
 /-
 Driver-side tensors: element values are carried as `Int` (exact regime: every value is an exactly
 representable integer; bool is 0/1) together with the element type.
@@ -56,17 +57,9 @@ def optTensorJson : Option DT → Json
   | none => Json.null
   | some d => tensorJson d
 
-/-- two's-complement / unsigned wrap-around of an integer result to the element type; floats are
-left alone (exactness is checked separately) -/
-def wrap (dt : DType) (v : Int) : Int :=
-  let w (bits : Nat) (signed : Bool) : Int :=
-    let m : Int := (2 : Int) ^ bits
-    let r := v % m
-    if signed && r ≥ m / 2 then r - m else r
-  match dt with
-  | .i8 => w 8 true | .i16 => w 16 true | .i32 => w 32 true | .i64 => w 64 true
-  | .u8 => w 8 false | .u16 => w 16 false | .u32 => w 32 false | .u64 => w 64 false
-  | _ => v
+/-- two's-complement / unsigned wrap-around of an integer result to the element type (`Gonnx.wrapTo`,
+characterised in `Gonnx/Theorems/C03b.lean`); floats are left alone (exactness is checked separately) -/
+def wrap (dt : DType) (v : Int) : Int := Gonnx.wrapTo dt v
 
 def isFloat (dt : DType) : Bool := dt == .f32 || dt == .f64
 def isInt (dt : DType) : Bool :=
